@@ -339,35 +339,63 @@ def nk1(ctx, R):
             R.ok(key, fi.where(a), "integer of magnitude <= %.3g%s" % (float(v.rng), " (via float64, exact below 2**53)" if v.via_float else ""))
 
 
-def _norm_ts_expr(e):
-    t = unparse(e)
-    for a, b in (("self['seconds']", "S"), ("self.seconds", "S"), ("self['second_fractions']", "F"), ("self.second_fractions", "F")):
-        t = t.replace(a, b)
-    t = t.replace("S * np.timedelta64(1, 's')", "SEC").replace("np.timedelta64(S, 's')", "SEC")
-    return t.replace(" ", "").replace("(", "").replace(")", "")
+def _norm_ts_canon(v):
+    """normal form of a timestamp conversion with the record fields and the whole-second term made representation independent:
+    self.seconds / self['seconds'] -> SEC, self.second_fractions / self['second_fractions'] -> FRAC,
+    timedelta64(x, 's') and timedelta64(1, 's') * x -> ('seconds', x)"""
+    if not isinstance(v, tuple) or not v:
+        return v
+    if v == ("self", "seconds") or (len(v) == 3 and v[0] == "sub" and v[1] in (("param", "self"), ("name", "self")) and v[2] == ("const", "seconds")):
+        return ("SEC",)
+    if v == ("self", "second_fractions") or (len(v) == 3 and v[0] == "sub" and v[1] in (("param", "self"), ("name", "self")) and v[2] == ("const", "second_fractions")):
+        return ("FRAC",)
+    v = tuple(_norm_ts_canon(y) for y in v)
+    if v[0] == "call" and str(v[1]).endswith("timedelta64") and len(v[2]) == 2 and v[2][1] == ("const", "s"):
+        return ("seconds", v[2][0])
+    if v[0] == "binop" and v[1] == "*" and len(v[2]) == 2:
+        for a, b in ((v[2][0], v[2][1]), (v[2][1], v[2][0])):
+            if a == ("seconds", ("const", 1)):
+                return ("seconds", b)
+    return v
 
 
 @rule("NK2", "scalar and array timestamp conversions are the same computation", floor=3)
 def nk2(ctx, R):
+    from .sym import Sym, show, alpha
+    from .sem import find, W, match
     prog = ctx.prog
     a = prog.func("timestamp.TdmsTimestamp.as_datetime64")
     b = prog.func("timestamp.TimestampArray.as_datetime64")
-    ra = [n for n in walk_body(a.node) if isinstance(n, ast.Return)]
-    rb = [n for n in walk_body(b.node) if isinstance(n, ast.Return)]
-    if not ra or not rb:
+    va = _norm_ts_canon(Sym(prog, a, a.cls, inline=False).function_value())
+    vb = _norm_ts_canon(Sym(prog, b, b.cls, inline=False).function_value())
+    if va[0] == "opaque" or vb[0] == "opaque":
         raise AnchorMissing("as_datetime64 return statements")
-    na, nb = _norm_ts_expr(ra[-1].value), _norm_ts_expr(rb[-1].value)
-    R.check(na == nb, "timestamp.as_datetime64::scalar vs array", b.where(rb[-1]), "both compute %s" % na,
+    R.check(va == vb, "timestamp.as_datetime64::scalar vs array", b.where(), "both compute %s" % show(alpha(va))[:140],
             "the scalar conversion computes `%s` and the array conversion `%s`: a value read as a property and the same value read as channel data "
-            "convert to different datetime64 values" % (na, nb))
-    want = "EPOCH+SEC+F/fractions_per_step*np.timedelta641,resolution"
-    R.check(na == want, "timestamp.TdmsTimestamp.as_datetime64::shape", a.where(ra[-1]), "EPOCH + seconds + (fractions / fractions_per_step) * 1 unit",
-            "conversion is `%s`" % unparse(ra[-1].value))
-    for f in (a, b):
-        t = unparse(f.node)
-        R.check("_fractions_per_step[resolution]" in t and "except KeyError" in t and "raise ValueError" in t and f.defaults.get("resolution") is not None
-                and prog.try_fold(f.defaults["resolution"]) == "us", "%s::resolution lookup" % f.qual, f.where(),
-                "looks up the step for the requested resolution (default 'us'), ValueError for unknown units", "resolution handling changed")
+            "convert to different datetime64 values" % (show(alpha(va))[:160], show(alpha(vb))[:160]))
+    RES = ("param", [p for p in a.params if p != "self"][0]) if len(a.params) > 1 else None
+    m = match(("binop", "+", (("binop", "+", (W("epoch"), ("seconds", ("SEC",)))), ("binop", "*", (("binop", "/", (("FRAC",), W("step"))), W("unit"))))), va)
+    ok = m is not None and m["unit"][0] == "call" and str(m["unit"][1]).endswith("timedelta64") and m["unit"][2] == (("const", 1), RES)
+    R.check(ok, "timestamp.TdmsTimestamp.as_datetime64::shape", a.where(), "EPOCH + seconds + (fractions / fractions_per_step) * 1 unit",
+            "conversion is `%s`" % show(alpha(va))[:200])
+    for f, v in ((a, va), (b, vb)):
+        mm = match(("binop", "+", (W(), ("binop", "*", (("binop", "/", (W(), W("step"))), W())))), v)
+        step = mm["step"] if mm else None
+        # the step comes from the table of fractions per unit, looked up with the requested resolution (directly or in a helper)
+        looked_up = False
+        if step is not None:
+            rp = ("param", [p for p in f.params if p != "self"][0])
+            if find(step, ("sub", W(), rp)):
+                looked_up = True
+            for x, _b in find(step, ("call", W(), W(), W())):
+                g = prog.functions.get(x[1]) if isinstance(x[1], str) else None
+                if g is not None and x[2] and x[2][0] == rp:
+                    gv = Sym(prog, g, g.cls, inline=False).function_value()
+                    if find(gv, ("sub", W(), ("param", g.params[0]))):
+                        looked_up = True
+        dflt = f.defaults.get([p for p in f.params if p != "self"][0]) if len(f.params) > 1 else None
+        R.check(looked_up and dflt is not None and prog.try_fold(dflt) == "us", "%s::resolution lookup" % f.qual, f.where(),
+                "looks up the step for the requested resolution (default 'us')", "resolution handling changed (step `%s`)" % (show(alpha(step))[:80] if step else None))
 
 
 @rule("TBf", "fraction-per-unit constants and epochs are exact", floor=7)
@@ -412,28 +440,56 @@ def tbf(ctx, R):
 
 @rule("TT1", "the absolute time track is the relative track shifted by the start time", floor=3)
 def tt1(ctx, R):
+    from .sym import Sym, show, alpha, simplify
+    from .sem import find, W, match
+    from .rules_layout import _global_value
     prog = ctx.prog
     fi = prog.func("tdms.TdmsChannel.time_track")
-    rel = [n for n in walk_body(fi.node) if isinstance(n, ast.Assign) and dotted(n.targets[0]) == "relative_time"]
-    if not rel:
-        raise AnchorMissing("tdms.TdmsChannel.time_track: relative_time")
-    v = rel[0].value
-    ok = isinstance(v, ast.Call) and call_name(v) in ("np.linspace",) and len(v.args) == 3 and unparse(v.args[0]) == "offset" \
-        and unparse(v.args[1]).replace(" ", "") == "offset+(len(self)-1)*increment" and unparse(v.args[2]) == "len(self)"
-    R.check(ok, "tdms.TdmsChannel.time_track::relative track", fi.where(rel[0]), "linspace(offset, offset + (len - 1) * increment, len)",
-            "relative track is `%s`" % unparse(v))
-    rets = [n for n in walk_body(fi.node) if isinstance(n, ast.Return)]
-    r_rel = [r for r in rets if unparse(r.value) == "relative_time"]
-    r_abs = [r for r in rets if r not in r_rel]
-    R.check(bool(r_rel), "tdms.TdmsChannel.time_track::relative result", fi.where(), "returns the relative track", "relative track is not returned")
-    for r in r_abs:
-        names = {x.id for x in ast.walk(r.value) if isinstance(x, ast.Name)}
-        R.check("relative_time" in names and "start_time" in names, "tdms.TdmsChannel.time_track::absolute result", fi.where(r),
-                "start_time + relative_time converted to the requested accuracy",
-                "the absolute track (`%s`) is not derived from the relative track: offsets/increments rounded separately accumulate an error that "
-                "grows with the sample index" % unparse(r.value)[:90])
-    uc = [n for n in ast.walk(fi.node) if isinstance(n, ast.Dict) and len(n.keys) == 4]
-    if uc:
-        tab = {prog.try_fold(k): prog.try_fold(val) for k, val in zip(uc[0].keys, uc[0].values)}
-        R.check(tab == {"s": 1e0, "ms": 1e3, "us": 1e6, "ns": 1e9}, "tdms.TdmsChannel.time_track::unit table", fi.where(uc[0]), "units per second table",
+    ps = [p for p in fi.params if p != "self"]
+    AP = ("param", ps[0])
+    sy = Sym(prog, fi, fi.cls)
+    v = sy.function_value()
+    if v[0] == "opaque":
+        raise AnchorMissing("tdms.TdmsChannel.time_track: body in normal form")
+    rel = simplify(v, lambda c: False if c == AP else None)
+    ab = simplify(v, lambda c: True if c == AP else None)
+
+    def prop(name):
+        return W(None, lambda x: bool(find(x, ("const", name))))
+    # linspace(offset, offset + (len(self) - 1) * increment, len(self))
+    lin = find(rel, ("call", "numpy.linspace", W(), W()))
+    ok = False
+    if len(lin) >= 1 and rel == lin[0][0]:
+        c = lin[0][0]
+        args = list(c[2]) + [vv for k, vv in c[3] if k == "num"]
+        if len(args) == 3:
+            off, stop, num = args
+            n = ("len", ("param", "self"))
+            n1 = sy._binop("-", n, ("const", 1))
+            inc_terms = [t for t in (stop[2] if stop[0] == "binop" and stop[1] == "+" else ())]
+            has_off = off in inc_terms
+            others = [t for t in inc_terms if t != off]
+            ok = bool(find(off, ("const", "wf_start_offset"))) and num == n and has_off and len(others) == 1 and others[0][0] == "binop" and others[0][1] == "*" \
+                and n1 in others[0][2] and any(find(t, ("const", "wf_increment")) for t in others[0][2])
+    R.check(ok, "tdms.TdmsChannel.time_track::relative track", fi.where(), "linspace(offset, offset + (len - 1) * increment, len)",
+            "relative track is `%s`" % show(alpha(rel))[:200])
+    R.check(rel != ab, "tdms.TdmsChannel.time_track::relative result", fi.where(), "returns the relative track unless absolute time is requested",
+            "relative track is not returned")
+    derived = bool(find(ab, rel)) and bool(find(ab, ("const", "wf_start_time")))
+    R.check(derived, "tdms.TdmsChannel.time_track::absolute result", fi.where(),
+            "start_time + relative_time converted to the requested accuracy",
+            "the absolute track (`%s`) is not derived from the relative track: offsets/increments rounded separately accumulate an error that "
+            "grows with the sample index" % show(alpha(ab))[:160])
+    # unit table
+    tabs = [x for x, _b in find(ab, ("dict", W()))]
+    for x, _b in find(ab, ("global", W())) + find(ab, ("name", W())):
+        gv = _global_value(prog, fi.module, x)
+        if gv[0] == "dict":
+            tabs.append(gv)
+    for t in tabs[:1]:
+        try:
+            tab = {k[1]: vv[1] for k, vv in t[1]}
+        except Exception:
+            tab = None
+        R.check(tab == {"s": 1e0, "ms": 1e3, "us": 1e6, "ns": 1e9}, "tdms.TdmsChannel.time_track::unit table", fi.where(), "units per second table",
                 "unit correction table is %s" % tab)
